@@ -222,12 +222,19 @@ Definition process_variable (x : string) (indexed : bool) (cst : bool) (reqd : o
         end
   end.
 
+(* maps.qasm3_expression_op_map: ArithmeticError / TypeError / ValueError raised by the operator
+   are re-raised as ValidationError *)
+Definition op_error {A} (r : res A) : res A :=
+  match r with
+  | Err (EInternal (KZeroDiv | KType | KValue | KOverflow)) => Err EValidation
+  | _ => r
+  end.
 Definition apply_op (name : string) (args : list pyval) : M pyval :=
   match assoc name OPERATOR_MAP, args with
   | None, _ => verr
-  | Some (Un o), [x] => lift (py_unop o x)
-  | Some (Bin o), [x; y] => lift (py_binop o x y)
-  | Some _, _ => ierr KType
+  | Some (Un o), [x] => lift (op_error (py_unop o x))
+  | Some (Bin o), [x; y] => lift (op_error (py_binop o x y))
+  | Some _, _ => verr
   end.
 
 Fixpoint eval (e : expr) (cst : bool) (reqd : option vkind) {struct e} : M (pyval * list stmt) :=
@@ -748,13 +755,13 @@ Fixpoint collapse_mods (mods : list gmod) (power : pyval) (inv : bool) : M (pyva
   | MPow None :: ms => collapse_mods ms power inv
   | MPow (Some e) :: ms =>
       c <- eval0 e false None;;
-      neg <- lift (py_binop OpLt c (VInt 0));;
+      (* a power that is not an int is rejected *)
       absc <- (match c with
                | VInt z => ret (VInt (Z.abs z))
                | VBool b => ret (VInt (if b then 1 else 0))
-               | VFloat f => ret (VFloat (PrimFloat.abs f))
-               | VNone => ierr KType
+               | VFloat _ | VNone => verr
                end);;
+      neg <- lift (py_binop OpLt c (VInt 0));;
       p <- lift (py_binop OpMul power absc);;
       collapse_mods ms p (if truthy neg then negb inv else inv)
   | (MCtrl _ | MNegCtrl _) :: _ => ierr KNotImpl
